@@ -95,6 +95,24 @@ func (g *gate) waitHit(d time.Duration) bool {
 	}
 }
 
+// waitHitOr is waitHit that gives up as soon as done is closed (the call returned without reaching
+// the gate: a source in which the store / msync is not performed must not cost the full timeout).
+func (g *gate) waitHitOr(done <-chan struct{}, d time.Duration) bool {
+	select {
+	case <-g.hit:
+		return true
+	case <-done:
+		select {
+		case <-g.hit:
+			return true
+		default:
+			return false
+		}
+	case <-time.After(d):
+		return false
+	}
+}
+
 type gatedFactory struct {
 	page.Factory
 	path string
